@@ -859,6 +859,10 @@ func c18Worlds(p *Program, r *Report, sp *ssa.Package, mainFn, runner *ssa.Funct
 			}
 		}
 	}
+	if argsG == nil {
+		r.Fail("C18.R4", "setup|args is the argument list itself", p.Pos(mainFn.Pos()), "the value bound as args is not the variable the positional arguments were stored in (a copy or another value is bound): what the script sees as args can differ from what the library sees when the same list is defined in its environment (a nil list instead of an empty one when there are no arguments)")
+		return
+	}
 	// atom: value of a condition in the situation (e given, n positional arguments)
 	atomVal := func(v ssa.Value, e bool, n int64) (bool, bool) {
 		bo, ok := v.(*ssa.BinOp)
@@ -937,11 +941,21 @@ func c18Worlds(p *Program, r *Report, sp *ssa.Package, mainFn, runner *ssa.Funct
 		}
 	}
 	type want func(e bool, n int64) bool
-	check := func(fn *ssa.Function, in ssa.Instruction, inst, what string, should want, mustReach bool) {
+	// checkGroup: the instructions of one group (all assignments of one kind, all calls of one function) taken together
+	checkGroup := func(fn *ssa.Function, ins []ssa.Instruction, inst, what string, should want, mustReach bool) {
+		if len(ins) == 0 {
+			return
+		}
 		bad := ""
 		for _, e := range []bool{false, true} {
 			for _, n := range []int64{0, 1, 2} {
-				reach := worldReach(fn, worldOf(fn, e, n))[in.Block()]
+				reachW := worldReach(fn, worldOf(fn, e, n))
+				reach := false
+				for _, in := range ins {
+					if reachW[in.Block()] {
+						reach = true
+					}
+				}
 				if reach && !should(e, n) {
 					bad = fmt.Sprintf("%s is reachable with -e %s and %d positional argument(s)", what, map[bool]string{true: "given", false: "not given"}[e], n)
 				}
@@ -950,10 +964,13 @@ func c18Worlds(p *Program, r *Report, sp *ssa.Package, mainFn, runner *ssa.Funct
 				}
 			}
 		}
-		r.Check(bad == "", "C18.R4", inst, p.Pos(instrPos(in)), "reachable in exactly the situations it is meant for (six situations evaluated)", bad+": the command then does something else than running that source with those arguments")
+		r.Check(bad == "", "C18.R4", inst, p.Pos(instrPos(ins[0])), "reachable in exactly the situations it is meant for (six situations evaluated)", bad+": the command then does something else than running that source with those arguments")
 	}
 	n := 0
 	// main: runner vs. anything else that feeds os.Exit
+	var runCalls []ssa.Instruction
+	otherCalls := map[string][]ssa.Instruction{}
+	var otherNames []string
 	for _, b := range mainFn.Blocks {
 		for _, in := range b.Instrs {
 			c, ok := in.(*ssa.Call)
@@ -964,13 +981,23 @@ func c18Worlds(p *Program, r *Report, sp *ssa.Package, mainFn, runner *ssa.Funct
 			if callee == nil || callee.Pkg != sp || callee.Signature.Results().Len() != 1 {
 				continue
 			}
-			n++
 			if callee == runner {
-				check(mainFn, c, "main|script runner", "the script runner", func(e bool, n int64) bool { return e || n > 0 }, true)
+				runCalls = append(runCalls, c)
 			} else {
-				check(mainFn, c, "main|"+callee.Name(), callee.Name(), func(e bool, n int64) bool { return !e && n == 0 }, false)
+				if otherCalls[callee.Name()] == nil {
+					otherNames = append(otherNames, callee.Name())
+				}
+				otherCalls[callee.Name()] = append(otherCalls[callee.Name()], c)
 			}
 		}
+	}
+	if len(runCalls) > 0 {
+		n++
+		checkGroup(mainFn, runCalls, "main|script runner", "the script runner", func(e bool, n int64) bool { return e || n > 0 }, true)
+	}
+	for _, name := range otherNames {
+		n++
+		checkGroup(mainFn, otherCalls[name], "main|"+name, name, func(e bool, n int64) bool { return !e && n == 0 }, false)
 	}
 	// main: environment prepared before the runner
 	if setup != nil {
@@ -994,22 +1021,23 @@ func c18Worlds(p *Program, r *Report, sp *ssa.Package, mainFn, runner *ssa.Funct
 		}
 	}
 	if parseFn != nil {
-		k := 0
+		var allStores, tailStores []ssa.Instruction
 		for _, b := range parseFn.Blocks {
 			for _, in := range b.Instrs {
 				st, ok := in.(*ssa.Store)
 				if !ok || st.Addr != ssa.Value(argsG) {
 					continue
 				}
-				k++
-				n++
 				if _, sliced := st.Val.(*ssa.Slice); sliced {
-					check(parseFn, st, fmt.Sprintf("%s|args #%d = the arguments after the file name", parseFn.Name(), k), "taking the first argument for the file name", func(e bool, n int64) bool { return !e && n > 0 }, true)
+					tailStores = append(tailStores, st)
 				} else {
-					check(parseFn, st, fmt.Sprintf("%s|args #%d = all arguments", parseFn.Name(), k), "handing every positional argument to the script", func(e bool, n int64) bool { return e || n == 0 }, true)
+					allStores = append(allStores, st)
 				}
 			}
 		}
+		n += 2
+		checkGroup(parseFn, tailStores, parseFn.Name()+"|args = the arguments after the file name", "taking the first argument for the file name", func(e bool, n int64) bool { return !e && n > 0 }, true)
+		checkGroup(parseFn, allStores, parseFn.Name()+"|args = all arguments", "handing every positional argument to the script", func(e bool, n int64) bool { return e || n == 0 }, true)
 		// args assigned on every path
 		blocked := func(x *ssa.BasicBlock) bool {
 			for _, in := range x.Instrs {
@@ -1050,7 +1078,7 @@ func c18Worlds(p *Program, r *Report, sp *ssa.Package, mainFn, runner *ssa.Funct
 						}
 					}
 					n++
-					check(parseFn, st, parseFn.Name()+"|file name = first argument", "taking the first argument for the file name", func(e bool, n int64) bool { return !e && n > 0 }, true)
+					checkGroup(parseFn, []ssa.Instruction{st}, parseFn.Name()+"|file name = first argument", "taking the first argument for the file name", func(e bool, n int64) bool { return !e && n > 0 }, true)
 				}
 			}
 		}
